@@ -210,6 +210,7 @@ def run(ctx, crate):
     rule_tracker_lifecycle(ctx, crate)
     rule_arm_buffer_fresh(ctx, crate)
     rule_marker_out_of_band(ctx, crate)
+    rule_frame_one_sample(ctx, crate)
     from .c05 import rule_paint_reads_live_state
     rule_paint_reads_live_state(ctx, crate)
 
@@ -741,3 +742,66 @@ def rule_marker_out_of_band(ctx, crate, rule="R-MARKER-OUT-OF-BAND"):
                       "template literals are free of the marker %r (filtered where the template is parsed)" % m,
                       "template text is appended to the line unfiltered although the line is searched for the marker %r" % m, cfg)
         ctx.extra.setdefault("marker_sites", {})[cfg] = {"appends": len(appends), "literal_appends": len(lit_appends), "filters": len(sanit), "buffer_writers": len(writers)}
+
+
+def _loads_position(crate, b, depth, seen=None):
+    """does body b (or a crate function it calls, `depth` levels down) read the shared position atomic?"""
+    seen = seen if seen is not None else set()
+    if b.name in seen:
+        return False
+    seen.add(b.name)
+    for c in b.calls(r"portable_atomic::AtomicU64::load"):
+        if b.slice_args(c, [0]).has_field("pos", "state::AtomicPosition"):
+            return True
+    if depth <= 0:
+        return False
+    for c in b.calls():
+        if c.callee.get("local") and not c.callee.get("trait"):
+            for tn in crate.resolve_targets(c):
+                h = crate.bodies.get(tn)
+                if h is not None and _loads_position(crate, h, depth - 1, seen):
+                    return True
+    return False
+
+
+def rule_frame_one_sample(ctx, crate, rule="R-FRAME-ONE-SAMPLE"):
+    """"renders the value of the bar at the moment of the draw" - one moment: inc/dec/set_position change the position without
+    taking the bar's lock, so every read of the shared atomic during the composition of a frame can see a different value. The
+    frame samples the position once, before the loop over the template parts (R-KEY-TABLE `sampled-once-per-frame`); every
+    placeholder that goes back to the atomic through a getter (`fraction()`, `eta()`, ..) can disagree with {pos} in the same
+    frame ("5/10 60%") - a state the bar never had. Checked: inside the loop over the template parts (and in what `push_line`
+    calls) no crate function is called that reads the position atomic again."""
+    cfg = crate.config
+    F = K.find_one(ctx, crate, rule, r"style::ProgressStyle::format_state")
+    if not F:
+        return
+    n = 0
+    found = {}
+    scopes = [(F, None)]
+    for c in F.calls(r"style::ProgressStyle::push_line"):
+        for tn in crate.resolve_targets(c):
+            if tn in crate.bodies:
+                scopes.append((crate.bodies[tn], "push_line"))
+    seen_scope = set()
+    for b, via in scopes:
+        if b.name in seen_scope:
+            continue
+        seen_scope.add(b.name)
+        for c in b.calls():
+            if not c.callee.get("local") or c.callee.get("trait"):
+                continue
+            if b is F and not b.in_loop(c.bb):
+                continue            # the one sample taken before the loop
+            if c.matches(r"style::ProgressStyle::push_line"):
+                continue
+            tgt = [crate.bodies[t] for t in crate.resolve_targets(c) if t in crate.bodies]
+            if any(_loads_position(crate, h, 3) for h in tgt):
+                n += 1
+                found.setdefault(K.meth(c.path), c)
+    for name, c in sorted(found.items()):
+        ctx.bad(rule, "resample:%s" % name, F.name, c.loc(),
+                "the frame reads the shared position again through %s() while it is being composed: a concurrent inc() between the sample taken for {pos} and this read "
+                "gives one frame two different positions" % name, cfg)
+    if not found:
+        ctx.check(True, rule, "single-sample", F.name, K.fn_loc(F), "no getter re-reads the position atomic inside the loop over the template parts", "", cfg)
+    ctx.extra.setdefault("frame_resamples", {})[cfg] = sorted(found)
